@@ -3,12 +3,13 @@ package checks
 // Panics raised from positions that //line directives place elsewhere - the situation of generated code and of
 // source files edited, moved or replaced after the build. Whoever prints source context for the frames of a
 // panic must cope with whatever is (or is not) at the place a frame names: a line past the end of an existing
-// file, a directory, a path through a plain file, a file that is gone, an empty file, one enormous line.
+// file, a directory, a path through a plain file, a file that is gone, an empty file, one enormous line, the last line of a
+// file that does not end in a newline, a file with CR LF line ends.
 // (c15EnterDir sets the scene in the scratch directory the process works in.)
 
 // c15PanicAt raises the panic from the k-th of those positions.
 func c15PanicAt(k int, m string) {
-	switch k % 6 {
+	switch k % 8 {
 	case 0:
 		c15PanicFarLine(m)
 	case 1:
@@ -19,6 +20,10 @@ func c15PanicAt(k int, m string) {
 		c15PanicGone(m)
 	case 4:
 		c15PanicEmpty(m)
+	case 6:
+		c15PanicLastLineNoNewline(m)
+	case 7:
+		c15PanicCRLF(m)
 	default:
 		c15PanicHugeLine(m)
 	}
@@ -41,3 +46,9 @@ func c15PanicEmpty(m string) { panic(m) }
 
 //line c15_huge.txt:1
 func c15PanicHugeLine(m string) { panic(m) }
+
+//line c15_nonl.txt:3
+func c15PanicLastLineNoNewline(m string) { panic(m) }
+
+//line c15_crlf.txt:2
+func c15PanicCRLF(m string) { panic(m) }
